@@ -82,6 +82,25 @@ add('C11', 'fault_enumeration',
     'validated on the BIP173 vectors; for multi-substitution families the linear syndrome decides checksum validity.',
     'exhaustive single/double fault enumeration (plus bounded multi-fault families) against a reference model')
 
+add('C15', 'exploration',
+    'Every transaction count 1..70 and {127,128,129,255,256,257} x 5 witness layouts; for n<=8 (10 thorough) every witness-presence '
+    'pattern (2^n) and every duplicate pattern (all set partitions of positions, with and without witnesses): whole merkle tree, '
+    'root, witness root (coinbase zeroed, NoWitnessData iff no stack non-empty), zero-root fill-in, constructed and deserialised; '
+    'every single-byte and single-bit change of the correct root refused; tx weight on the C01 shapes (k<=1/2) and block weight '
+    'incl. 252/253/254 transactions.',
+    'DESIGN.md 3 C15', 'Oracle ref/wire.py merkle_root/merkle_tree (validated on mainnet block 100000) and reference sizes.',
+    'bounded exhaustive enumeration (all counts, all partitions up to n) against a reference model')
+
+add('C20', 'model_checking',
+    'Explicit-state BFS over the real CBloomFilter: 117 initial wire filters (1/2/5 bytes x 1..3 hash functions x 3 tweaks x 5 '
+    'initial data patterns) x histories of insert(10 elements incl. an outpoint)/serialise-deserialise events to depth 5 (7), '
+    'dedup on (vData, nHashFuncs, nTweak, nFlags) = the whole object state; in every state the set bits equal the union of the '
+    'BIP37 schedule bits, every inserted element is contained, every membership answer equals the schedule-defined one and '
+    'survives the wire round trip. Plus MurmurHash3 (lengths 0..17 x fills x seeds), constructor sizing/caps over a parameter '
+    'grid, constructed filters, and wire filters with empty data.',
+    'DESIGN.md 3 C20', 'Oracle ref/bloom.py (MurmurHash3 validated on the repository\'s vectors). State dedup is sound: a filter has no other state.',
+    'explicit-state breadth-first search over the real transition function with history replay, reference-model agreement in every state')
+
 NOT_YET = 'check not yet built in this revision of /verif (planned, see DESIGN.md section 3)'
 
 
